@@ -176,7 +176,7 @@ def explore(item, tier, seed):
                 rep.violation(kind, {"labels": ("deep-lp",) + cfg[:3], "problem": ("prob", cfg[3]), "method": cfg[4], "deep": list(cfg)}, **d)
     import itertools as _it
 
-    for idx, labs, pr, method in _it.chain(F.family(tier), F.view_family()):
+    for idx, labs, pr, method in _it.chain(F.family(tier), F.view_family(), F.scaled_family()):
         if idx % n != i:
             continue
         fs = check_problem(pr, method, rep)
